@@ -1311,23 +1311,20 @@ func (e *env) startListener(d caseDesc) {
 		return
 	}
 	defer up.Close()
-	// forward target
-	var fwdRec *recorder
-	fport := 0
-	if in.Fwd != "" || strings.Contains(in.Raw, "{F}") {
-		r, l, err := newStreamRecorder("tcp", "127.0.0.1:0", nil)
-		if err != nil {
-			e.rec.Inconclusive("recorder: "+err.Error(), d)
-			return
-		}
-		fwdRec, fport = r, l.Addr().(*net.TCPAddr).Port
-		defer r.Close()
+	// forward target: a plain recorder where the forward part points (TCP port or unix socket)
+	fN := d.N * 100
+	ft, err := e.forwardTarget(in, fN)
+	if err != nil {
+		e.rec.Inconclusive("recorder: "+err.Error(), d)
+		return
 	}
+	defer ft.Close()
+	fport := ft.Port()
 	for attempt := 0; attempt < 4; attempt++ {
 		p := freePort()
 		uniq := d.N*100 + attempt
 		a := resolve(in.Addr, p, fport, e.tmp, uniq)
-		fwd := resolve(in.Fwd, p, fport, e.tmp, uniq)
+		fwd := resolve(in.Fwd, p, fport, e.tmp, fN)
 		var nat *ref
 		cli := ""
 		if in.Raw != "" {
@@ -1363,7 +1360,6 @@ func (e *env) startListener(d caseDesc) {
 			stdinW, stdoutR = iw, or
 			defer func() { iw.Close(); or.Close(); ir.Close(); ow.Close() }()
 		}
-		_ = stdinW
 		_ = stdoutR
 		var serr error
 		pan, site, val := vcommon.Guard(func() { serr = l.Start(ups, cfg) })
@@ -1402,18 +1398,27 @@ func (e *env) startListener(d caseDesc) {
 		}
 		so.Bound = bound
 		if _, ok := l.(*listener.InputOutputListener); ok {
-			// a stdio listener connects to the upstream by itself
+			// a stdio listener connects to the upstream (or the forward target) by itself
+			if in.Fwd != "" {
+				stdinW.Write([]byte("ping")) // what the user types: a forward target that is connected to gets to see it
+			}
+			o := obs{Kind: "stdio", Net: "stdio"}
 			select {
 			case f := <-up.C:
 				so.Flight = &f
+				o.Detail = "upstream saw " + f.Outer
+			case f := <-ft.C():
+				so.Flight = &f
+				so.DirectHit = true
+				o.Detail = "forward target saw " + f.Outer
 			case <-time.After(watchdog):
-				e.rec.Inconclusive("watchdog: stdio listener did not reach the upstream", d)
+				e.rec.Inconclusive("watchdog: stdio listener reached neither the upstream nor the forward target", d)
 				return
 			}
-			o := obs{Kind: "stdio", Net: "stdio", Detail: "upstream saw " + so.Flight.Outer}
 			so.Observed = &o
 			e.rec.Seen("observed_transports", in.Pos+":"+o.String())
 			e.judgeTransport(d, "start", nat, a, o, so, true)
+			e.judgeForward(d, cli, fwd, ft, so.Flight, so.DirectHit, 1, so)
 			return
 		}
 		if bound == "" {
@@ -1441,10 +1446,7 @@ func (e *env) startListener(d caseDesc) {
 		defer c.Close()
 		c.Write([]byte("ping"))
 		var o obs
-		var fc <-chan flight
-		if fwdRec != nil {
-			fc = fwdRec.C
-		}
+		fc := ft.C()
 		select {
 		case f := <-up.C:
 			so.Flight = &f
@@ -1462,8 +1464,7 @@ func (e *env) startListener(d caseDesc) {
 		e.rec.Stat("start_probed_endpoints", 1)
 		lenient := namedHit(dn, bound, namedEndpoints(a, nat, e.tmp))
 		good := e.judgeTransportPhase(d, "start", nat, a, o, so, lenient, "")
-		if in.Class == "documented" && in.Fwd != "" && !so.DirectHit {
-			e.viol(sigT(in, "forward-not-tried-first"), d, so)
+		if !e.judgeForward(d, cli, fwd, ft, so.Flight, so.DirectHit, 1, so) {
 			good = false
 		}
 		// a listener takes more than one connection: the next one has to surface the same way
@@ -1495,8 +1496,7 @@ func (e *env) startListener(d caseDesc) {
 			e.rec.Stat("reuse_observations:listener", 1)
 			e.rec.Seen("observed_transports", in.Pos+":"+phaseReuse+o2.String())
 			good = e.judgeTransportPhase(d, "start", nat, a, o2, &so2, lenient, phaseReuse)
-			if good && in.Class == "documented" && in.Fwd != "" && !so2.DirectHit {
-				e.viol(sigT(in, phaseReuse+"forward-not-tried-first"), d, &so2)
+			if good && !e.judgeForward(d, cli, fwd, ft, so2.Flight, so2.DirectHit, use, &so2) {
 				good = false
 			}
 		}
